@@ -107,10 +107,11 @@ def handle : List String → String
     | some (req, σ, w, dl) =>
       encResult (decode (replayDecoder dl) { keepAlive := ka == "T", ignoreLength := il == "T" } req σ w)
     | none => "bad-arg"
-  | "session" :: ka :: rest =>
+  | "session" :: ka :: il :: rest =>
     match (chunk6 rest).mapM decExchange? with
     | some xs =>
-      let out := sessionLog { keepAlive := ka == "T" } { index := 0, alive := false, leftover := [], peerEof := false } xs
+      let out := sessionLog { keepAlive := ka == "T", ignoreLength := il == "T" }
+        { index := 0, alive := false, leftover := [], peerEof := false } xs
       if out.isEmpty then "~" else " || ".intercalate (out.map (fun (i, r) => toString i ++ ":" ++ encResult r))
     | none => "bad-arg"
   | ["py", "title", s] => match decList? s with | some s => encList (pyTitle s) | none => "bad-arg"
